@@ -256,6 +256,13 @@ def r8_factor_table(idx, r):
         r.require(not bad, f"_setExpansionTarget:{what}-always-written", st,
                   msg=f"the target's {what} is not written on every path: a re-designated target is known to this ExpansionData but not to the block (or vice versa), and the next "
                       "expansion grows the block by another component than the designated one")
+    # (d) one target per block: designating a target withdraws the designation of every other component of that block
+    loops = [x for x in walk_local(st.node) if isinstance(x, ast.For) and norm(x.iter) in (blk, f"{blk}.getChildren()", f"iterSolidComponents({blk})")]
+    cleared = any(isinstance(c_, ast.Call) and norm(c_.func) == "self._componentDeterminesBlockHeight.pop" and c_.args and norm(c_.args[0]) == norm(lp.target) for lp in loops for c_ in ast.walk(lp)) or \
+        any(isinstance(d_, ast.Delete) and any(norm(t) == f"self._componentDeterminesBlockHeight[{norm(lp.target)}]" for t in d_.targets) for lp in loops for d_ in ast.walk(lp))
+    r.require(cleared, "_setExpansionTarget:one-target-per-block", st,
+              msg="registering a target leaves a previously designated component of the same block registered as well: after re-targeting (determineTargetComponent(b, flag)) the block has two "
+                  "'targets', the stale one still moves the block boundary and the designated component's mass is not conserved")
     if n < 1:
         raise AnalysisError("no binding of ExpansionData._expansionFactors found")
 
